@@ -259,7 +259,8 @@ namespace fam_lists_rcu {
                 fail( std::string( "RCU read-side lock of the calling thread still held after " ) + where );
         }
 
-        // returns true when `op` was handled
+        // returns true when `op` was handled. Every client functor starts with an explicit scheduling point: the functor is
+        // client code, the thread may be pre-empted on its first instruction, before it touches the item it was given.
         bool common( int op, int key, Res& r )
         {
             switch ( op ) {
@@ -268,7 +269,7 @@ namespace fam_lists_rcu {
                 return true;
             case O_ERASE_F: {
                 int calls = 0;
-                r.r = s.erase( key, [&]( auto const& v ) { ++calls; observe( r, v ); } ) ? 1 : 0;
+                r.r = s.erase( key, [&]( auto const& v ) { ++calls; cdsverif::point(); observe( r, v ); } ) ? 1 : 0;
                 r.fcalls = calls;
                 return true;
             }
@@ -310,7 +311,7 @@ namespace fam_lists_rcu {
             }
             case O_FIND_F: {
                 int calls = 0;
-                r.r = s.find( key, [&]( auto& v, auto const&... ) { ++calls; observe( r, v ); } ) ? 1 : 0;
+                r.r = s.find( key, [&]( auto& v, auto const&... ) { ++calls; cdsverif::point(); observe( r, v ); } ) ? 1 : 0;
                 r.fcalls = calls;
                 return true;
             }
@@ -358,7 +359,7 @@ namespace fam_lists_rcu {
                 break;
             case O_INSERT_F: {
                 int calls = 0;
-                r.r = s.insert( Item( key, tag ), [&]( Item& it ) { ++calls; r.key = it.key; if ( it.tag != tag ) fail( "insert functor received a foreign item" ); } ) ? 1 : 0;
+                r.r = s.insert( Item( key, tag ), [&]( Item& it ) { ++calls; cdsverif::point(); r.key = it.key; if ( it.tag != tag ) fail( "insert functor received a foreign item" ); } ) ? 1 : 0;
                 r.fcalls = calls;
                 break;
             }
@@ -366,7 +367,7 @@ namespace fam_lists_rcu {
             case O_UPDATE_NOINS: {
                 int calls = 0;
                 std::pair<bool, bool> p = s.update( Item( key, tag ), [&]( bool bNew, Item& it, Item const& ) {
-                    ++calls;
+                    ++calls; cdsverif::point();
                     r.fnew = bNew ? 1 : 0;
                     observe( r, it );
                 }, op == O_UPDATE );
@@ -408,7 +409,7 @@ namespace fam_lists_rcu {
             case O_INSERT_F: {
                 int calls = 0;
                 r.r = s.insert_with( key, [&]( KV& p ) {
-                    ++calls;
+                    ++calls; cdsverif::point();
                     r.key = p.first;
                     if ( p.second.tag != 0 )
                         fail( "insert_with functor received an item that is not the fresh one" );
@@ -421,7 +422,7 @@ namespace fam_lists_rcu {
             case O_UPDATE_NOINS: {
                 int calls = 0;
                 std::pair<bool, bool> p = s.update( key, [&]( bool bNew, KV& kv ) {
-                    ++calls;
+                    ++calls; cdsverif::point();
                     r.fnew = bNew ? 1 : 0;
                     if ( bNew ) {
                         if ( kv.second.tag != 0 )
@@ -487,7 +488,7 @@ namespace fam_lists_rcu {
             case O_INSERT_F: {
                 N* n = make_node( key, tag );
                 int calls = 0;
-                r.r = s.insert( *n, [&]( N& it ) { ++calls; r.key = it.ikey; if ( &it != n ) fail( "insert functor received a foreign item" ); } ) ? 1 : 0;
+                r.r = s.insert( *n, [&]( N& it ) { ++calls; cdsverif::point(); r.key = it.ikey; if ( &it != n ) fail( "insert functor received a foreign item" ); } ) ? 1 : 0;
                 r.fcalls = calls;
                 if ( !r.r )
                     discard( n );
@@ -498,7 +499,7 @@ namespace fam_lists_rcu {
                 N* n = make_node( key, tag );
                 int calls = 0;
                 std::pair<bool, bool> p = s.update( *n, [&]( bool bNew, N& it, N& val ) {
-                    ++calls;
+                    ++calls; cdsverif::point();
                     r.fnew = bNew ? 1 : 0;
                     if ( &val != n )
                         fail( "update functor: third argument is not the update() argument" );
@@ -639,7 +640,7 @@ namespace fam_lists_rcu {
             case O_INSERT_F: {
                 int calls = 0;
                 auto it = s.insert_with( key, [&]( KV& p ) {
-                    ++calls;
+                    ++calls; cdsverif::point();
                     r.key = p.first;
                     if ( p.second.tag != 0 )
                         fail( "insert_with functor received an item that is not the fresh one" );
@@ -756,7 +757,7 @@ namespace fam_lists_rcu {
                 N* n = make_node( key, tag );
                 int calls = 0;
                 std::pair<bool, bool> p = s.update( *n, [&]( bool bNew, N& it, N& val ) {
-                    ++calls;
+                    ++calls; cdsverif::point();
                     r.fnew = bNew ? 1 : 0;
                     if ( &val != n )
                         fail( "update functor: third argument is not the update() argument" );
@@ -776,7 +777,7 @@ namespace fam_lists_rcu {
             case O_FIND_F: {
                 int calls = 0;
                 N* seen = nullptr;
-                r.r = s.find( key, [&]( N& it, auto const&... ) { ++calls; observe( r, it ); seen = &it; } ) ? 1 : 0;
+                r.r = s.find( key, [&]( N& it, auto const&... ) { ++calls; cdsverif::point(); observe( r, it ); seen = &it; } ) ? 1 : 0;
                 r.fcalls = calls;
                 if ( seen )
                     hold_and_check( payload( *seen ), hold );    // nothing is ever disposed before the list dies
